@@ -282,9 +282,16 @@ class MovingWindow(ChangeDetector):
             exact format depends on annotation type
         """
         self.scores = self.transform_scores(X)
+        # Scores are only defined for bandwidth <= t <= n - bandwidth. The zero padding
+        # outside must not be detected when a tuned threshold is slightly negative.
+        first = self.bandwidth
+        last = len(X) - self.bandwidth
         changepoints = get_moving_window_changepoints(
-            self.scores.values, self.threshold_, self.min_detection_interval
+            self.scores.values[first : last + 1],
+            self.threshold_,
+            self.min_detection_interval,
         )
+        changepoints = [first + cpt for cpt in changepoints]
         return ChangeDetector._format_sparse_output(changepoints)
 
     @classmethod
